@@ -23,6 +23,13 @@ def lattices(tier):
     pts = list(itertools.product(range(-e, e + 1), repeat=3))
     per_axis = [(l, h) for l in range(-c, c + 1) for h in range(l, c + 1)]
     boxes = [((x[0], y[0], z[0]), (x[1], y[1], z[1])) for x in per_axis for y in per_axis for z in per_axis]
+    if tier != "thorough":
+        # sides of length 3 (half-size 1.5, whose reciprocal is not a binary fraction) exist only on the thorough lattice:
+        # the quick tier gets the 26 boxes over {[-2,1], [-1,2], [-1,0]}^3 that have at least one such side (appended, so the
+        # indices of the other boxes stay what they were)
+        odd = [(-2, 1), (-1, 2), (-1, 0)]
+        boxes += [((x[0], y[0], z[0]), (x[1], y[1], z[1])) for x in odd for y in odd for z in odd
+                  if 3 in (x[1] - x[0], y[1] - y[0], z[1] - z[0])]
     return pts, boxes
 
 
